@@ -12,6 +12,7 @@ import (
 	"regexp"
 	"sort"
 	"strings"
+	"sync"
 
 	"golang.org/x/tools/go/packages"
 	"golang.org/x/tools/go/ssa"
@@ -48,7 +49,11 @@ type Prog struct {
 var tyArgs = regexp.MustCompile(`\[[^\[\]]*\]`)
 
 // FuncName is the stable, type-argument-free name of a function:
-// "(*Buffer).get", "DefaultCleaner", "(*Buffer).cleanup$1$1", "(*ChanPubSub).Send".
+// "(*Buffer).get", "DefaultCleaner", "(*ChanPubSub).Send". An anonymous function is named after its ROLE in
+// the enclosing function, not after its ordinal among all closures: "(*Exclusive).call$go1" (the first closure
+// started with go), "(*Buffer).Close$Do1" (first closure passed to a callee named Do), "$defer1", "$call1"
+// (invoked on the spot), "$ret1" (returned), "$fn1" (stored / anything else). Adding, say, a deferred closure
+// to a function therefore does not rename the goroutine closure the tables anchor on.
 func FuncName(fn *ssa.Function) string {
 	if fn == nil {
 		return "<nil>"
@@ -56,20 +61,175 @@ func FuncName(fn *ssa.Function) string {
 	if fn.Origin() != nil {
 		fn = fn.Origin()
 	}
-	var s string
-	if fn.Pkg != nil {
-		s = fn.RelString(fn.Pkg.Pkg)
-	} else {
-		s = fn.String()
+	if v, ok := fnNames.Load(fn); ok {
+		return v.(string)
 	}
-	for {
-		t := tyArgs.ReplaceAllString(s, "")
-		if t == s {
+	var s string
+	if par := fn.Parent(); par != nil {
+		role := closureRole(par, fn)
+		n := 0
+		for _, sib := range par.AnonFuncs {
+			if closureRole(par, sib) == role {
+				n++
+			}
+			if sib == fn {
+				break
+			}
+		}
+		s = FuncName(par) + "$" + role + fmt.Sprint(n)
+	} else {
+		if fn.Pkg != nil {
+			s = fn.RelString(fn.Pkg.Pkg)
+		} else {
+			s = fn.String()
+		}
+		for {
+			t := tyArgs.ReplaceAllString(s, "")
+			if t == s {
+				break
+			}
+			s = t
+		}
+	}
+	fnNames.Store(fn, s)
+	return s
+}
+
+// OrdinalName is the x/tools name of a function ("call$1"): used only to report both names.
+func OrdinalName(fn *ssa.Function) string {
+	if fn.Pkg != nil {
+		return fn.RelString(fn.Pkg.Pkg)
+	}
+	return fn.String()
+}
+
+var fnNames, fnRoles sync.Map
+
+// ClosureRole is the role part of an anonymous function's name ("go", "defer", "ret", "Do", ...).
+func ClosureRole(fn *ssa.Function) string {
+	if fn == nil || fn.Parent() == nil {
+		return ""
+	}
+	return closureRole(fn.Parent(), fn)
+}
+
+// closureRole classifies how the enclosing function first uses the anonymous function.
+func closureRole(par, fn *ssa.Function) string {
+	if v, ok := fnRoles.Load(fn); ok {
+		return v.(string)
+	}
+	isIt := func(v ssa.Value) bool {
+		if v == nil {
+			return false
+		}
+		for {
+			switch x := v.(type) {
+			case *ssa.ChangeType:
+				v = x.X
+				continue
+			case *ssa.MakeInterface:
+				v = x.X
+				continue
+			}
 			break
 		}
-		s = t
+		if mc, ok := v.(*ssa.MakeClosure); ok {
+			return mc.Fn == ssa.Value(fn)
+		}
+		return v == ssa.Value(fn)
 	}
-	return s
+	role := ""
+	common := func(c *ssa.CallCommon, direct string) {
+		if role != "" {
+			return
+		}
+		if !c.IsInvoke() && isIt(c.Value) {
+			role = direct
+			return
+		}
+		for _, a := range c.Args {
+			if isIt(a) {
+				switch {
+				case c.IsInvoke():
+					role = c.Method.Name()
+				case c.StaticCallee() != nil:
+					role = c.StaticCallee().Name()
+				default:
+					role = "arg"
+				}
+				return
+			}
+		}
+	}
+	for _, b := range par.Blocks {
+		for _, in := range b.Instrs {
+			switch x := in.(type) {
+			case *ssa.Go:
+				common(&x.Call, "go")
+			case *ssa.Defer:
+				common(&x.Call, "defer")
+			case *ssa.Call:
+				common(&x.Call, "call")
+			case *ssa.Return:
+				for _, r := range x.Results {
+					if isIt(r) && role == "" {
+						role = "ret"
+					}
+				}
+			case *ssa.Store:
+				if !isIt(x.Val) || role != "" {
+					break
+				}
+				// a package-level function variable: named after the variable
+				if g, ok := x.Addr.(*ssa.Global); ok {
+					role = g.Name()
+				}
+				// a result spilled because the function has a defer: still "returned"
+				if al, ok := x.Addr.(*ssa.Alloc); ok {
+					for _, r := range *al.Referrers() {
+						if ld, ok := r.(*ssa.UnOp); ok && ld.Op == token.MUL {
+							for _, rr := range *ld.Referrers() {
+								if _, isRet := rr.(*ssa.Return); isRet {
+									role = "ret"
+								}
+							}
+						}
+					}
+				}
+			}
+			if role != "" {
+				break
+			}
+		}
+		if role != "" {
+			break
+		}
+	}
+	if role == "" {
+		role = "fn"
+		// never used at all (e.g. assigned to the blank identifier)
+		used := false
+		for _, b := range par.Blocks {
+			for _, in := range b.Instrs {
+				for _, op := range in.Operands(nil) {
+					if *op != nil && isIt(*op) {
+						if mc, isMC := in.(*ssa.MakeClosure); isMC && mc.Fn == ssa.Value(fn) {
+							continue
+						}
+						used = true
+					}
+				}
+				if mc, isMC := in.(*ssa.MakeClosure); isMC && mc.Fn == ssa.Value(fn) && mc.Referrers() != nil && len(*mc.Referrers()) > 0 {
+					used = true
+				}
+			}
+		}
+		if !used {
+			role = "unused"
+		}
+	}
+	fnRoles.Store(fn, role)
+	return role
 }
 
 // Load type-checks and builds SSA for the package in dir. overlay maps absolute
